@@ -1,3 +1,7 @@
 module gsim
 
 go 1.26
+
+require github.com/crillab/gophersat v0.0.0
+
+replace github.com/crillab/gophersat => /repo
